@@ -488,6 +488,19 @@ func (w *FSWorld) externalRename() string {
 	return w.viol
 }
 
+// ExternalWipe: the environment removes the sink's whole directory (with every file in it) and asks the
+// sink to Reopen. Everything written so far is gone by the environment's doing; the sink must carry on
+// in a directory it creates on demand again (the directory is not only created by the first open).
+func (w *FSWorld) ExternalWipe() string {
+	w.beginOp()
+	if err := os.RemoveAll(w.Sub); err != nil {
+		w.fail("harness: removing the directory failed: %v", err)
+		return w.viol
+	}
+	w.files, w.acked, w.bystanders, w.mActive = nil, nil, nil, nil
+	return w.Reopen()
+}
+
 // Advance moves the virtual clock.
 func (w *FSWorld) Advance(d time.Duration) string {
 	vrt.AdvanceClock(int64(d))
